@@ -19,6 +19,7 @@ type SelItem struct {
 
 type C02Case struct {
 	Doc   map[string]any `json:"doc"`
+	Env   Envelope       `json:"env,omitempty"` // irrelevant options / table representation / repeated execution
 	Items []SelItem      `json:"items"`
 	Star  int            `json:"star"` // 0 none, 1 leading *, 2 trailing *
 	Where *sq.E          `json:"where,omitempty"`
@@ -35,13 +36,22 @@ func init() {
 			"evaluator on float64: row count, exact key set and values per row. Non-trivial: >=1 output row and >=1 operator node. " +
 			"Distinct = distinct JSON encodings of (doc, select list, where).",
 		Assumptions: []string{
+			"a third of the cases run inside an envelope that must not change the result: PostgresEscapingDialect / IdiomaticArrays on (the query uses neither double quotes nor brackets), Wrapped() with FROM root.<table>, tables handed over as []map[string]any, and a second execution on the same input object",
 			"no division/modulo by zero, bitwise/DIV operands integer-valued and non-negative, unary operators never see NULL (unspecified in the statement)",
 			"~x is accepted in both the two's-complement and MySQL-unsigned reading",
 			"floats compared with 1e-9 relative tolerance",
 		},
-		Gen:      genC02,
-		New:      func() any { return &C02Case{} },
-		Check:    func(c any) Result { return checkC02(c.(*C02Case)) },
+		Gen: func(t *rapid.T) any {
+			c := genC02(t).(*C02Case)
+			c.Env = genEnvelope(t, "env")
+			return c
+		},
+		New: func() any { return &C02Case{} },
+		Check: func(c any) Result {
+			r := checkC02(c.(*C02Case))
+			r.Labels = append(r.Labels, c.(*C02Case).Env.Labels()...)
+			return r
+		},
 		Quick:    3000,
 		Thorough: 300000,
 	})
@@ -223,7 +233,7 @@ func checkC02(c *C02Case) Result {
 	}
 	res.NonTrivial = len(want) >= 1 && ops >= 1
 
-	out := Run(val.CopyMap(c.Doc), c.SQL, Opts{})
+	out := c.Env.Exec(val.CopyMap(c.Doc), c.SQL)
 	res.Execs++
 	if !out.OK() {
 		res.Violation = fmt.Sprintf("%s\n  expected rows %s\n  got %s", c.SQL, val.JSON(want), out.Describe())
